@@ -7,7 +7,7 @@ H = lambda b: b.hex() if b else "-"
 
 def make_stream(r, bufsize):
     """a well-formed broker stream: PUBLISH at all levels around the buffer size, control packets in between"""
-    pkts, expect = [], []
+    pkts, expect, used = [], [], set()
     n = r.choice([1, 2, 3, 4])
     for i in range(n):
         if r.random() < 0.25:
@@ -22,8 +22,16 @@ def make_stream(r, bufsize):
         psz = max(0, psz)
         payload = bytes(r.randrange(256) for _ in range(psz))
         pid = r.randrange(1, 0xffff)
-        pkts.append(mq.publish(qos, topic, payload, pid if qos else 0, retain=r.random() < 0.2))
+        while pid in used:
+            pid = r.randrange(1, 0xffff)
+        used.add(pid)
+        retain = r.random() < 0.2
+        pkts.append(mq.publish(qos, topic, payload, pid if qos else 0, retain=retain))
         expect.append((topic, payload, qos))
+        if qos == 2 and r.random() < 0.35:
+            # the broker did not get the PUBREC in time and sends the message again: skipped, the stream stays aligned
+            for _ in range(r.choice([1, 1, 2])):
+                pkts.append(mq.publish(qos, topic, payload, pid, dup=True, retain=retain))
     return pkts, expect
 
 
